@@ -20,4 +20,9 @@ CHECKS = {
   "text": "Read sets: for generated expressions and assignments, every identifier, opaque memory cell and memory byte whose perturbation changes the reference value must be covered by get_r()/get_r(mem_read=True)/get_expr_ids, and get_w names the destination. Matching: e is built by substitution from a generated pattern; whenever MatchExpr does not return False the returned bindings must reproduce e, and one-field mutations of e for which an independent matcher finds no binding must be rejected.",
   "note": "Trusted: vlib/irsem.py; the independent matcher in the check. Identifiers occurring only inside a memory address are required only with mem_read=True; segment selectors are not required (flat memory model). Success of MatchExpr on true instances is reported (class histogram) but not demanded, as in the statement.",
  },
+ "C13": {
+  "technique": "Hypothesis metamorphic testing (re-simplify a fresh copy; permute/re-associate operand multisets) + cross-process differential runs of one corpus under 8 PYTHONHASHSEED values",
+  "text": "Idempotence is checked on a fresh rebuild of the simplifier's output (so cached 'simp' flags cannot hide a second rewrite); order-insensitivity on two random arrangements (permutation and re-association, near-equal operands included) of the same operand multiset for + * ^ & |; seed independence by running a corpus of expressions, decoded/rendered/lifted instructions and emulated state dumps in 8 child processes with different hash seeds and comparing item by item.",
+  "note": "Exceptions of the simplifier are C05's business and skipped here. Seed independence is checked for 8 seed values on a sampled corpus.",
+ },
 }
